@@ -1,6 +1,8 @@
 import Poulpy.Lemmas.Avx
 import Poulpy.Lemmas.AvxIndex
 import Poulpy.Lemmas.AvxQ120
+import Poulpy.Lemmas.AvxNttLoop
+import Poulpy.Lemmas.NttFinal
 /-
 C10 — all back ends give bit-identical results: lane level.
 
@@ -466,5 +468,277 @@ theorem dft_consume_no_clobber (n k c k' c' : Nat) (hc : c < n) (hc' : c' < n) (
 example : 2 * 8 * 1 + 2 * 7 + 1 < 4 * 8 * 2 + 4 * 0 := by decide
 
 end Q120
+
+/-! ## The integer AVX2 kernels of the NTT120 back end (`poulpy-cpu-avx/src/ntt120/{ntt,prim,arithmetic_avx,mat_vec_avx}.rs`)
+
+Every intrinsic sequence is modelled on one `BitVec 64` lane (`Model/AvxNtt.lean`; one `__m256i` = the four prime residues of one
+coefficient, lane `k` = prime `k`, so there are no tails) and proved equal to the reference kernel modelled by C07
+(`Model/Ntt120.lean`, over `Nat` with explicit `% 2^64`) for all operands in the documented range; where the AVX2 kernel is
+only correct on a sub-range (`_mm256_mul_epu32` reads the low 32 bits of its operands, the lazy kernels subtract `Q_SHIFTED`
+once) the range is an explicit hypothesis and a `…_differs_outside` theorem exhibits a lane outside it on which the two differ.
+The floating-point FFT64 AVX kernels are NOT covered here: they stay differential-only (see docs/C10.md). -/
+namespace NttAvx
+open Avx.Ntt
+
+/-! ### `ntt.rs`: `split_precompmul_si256`, `modq_red_si256`, the butterflies -/
+
+theorem ntt120_avx_split_precompmul_eq_ref (inp po h mask : W) (h1 : inp.toNat &&& mask.toNat < 2 ^ 32)
+    (h2 : inp.toNat >>> h.toNat < 2 ^ 32) :
+    (splitPrecompmulSi256 inp po h mask).toNat = Ntt120.splitPrecompmul inp.toNat po.toNat h.toNat mask.toNat :=
+  splitPrecompmul_eq inp po h mask h1 h2
+example : (splitPrecompmulSi256 0xFFFFFFFFFFFFFFFF#64 0x3FFFFFFF3FFFFFFF#64 32#64 0xFFFFFFFF#64).toNat
+    = Ntt120.splitPrecompmul (2 ^ 64 - 1) 0x3FFFFFFF3FFFFFFF 32 0xFFFFFFFF := by decide
+theorem ntt120_avx_split_precompmul_differs_outside :
+    (splitPrecompmulSi256 (1#64 <<< 32) 1#64 33#64 ((1#64 <<< 33) - 1#64)).toNat
+      ≠ Ntt120.splitPrecompmul (2 ^ 32) 1 33 (2 ^ 33 - 1) := splitPrecompmul_differs_outside
+
+theorem ntt120_avx_modq_red_eq_ref (x h mask cst : W) (h1 : x.toNat >>> h.toNat < 2 ^ 32) (h2 : cst.toNat < 2 ^ 32) :
+    (modqRedSi256 x h mask cst).toNat = Ntt120.modqRed x.toNat h.toNat mask.toNat cst.toNat := modqRed_eq x h mask cst h1 h2
+example : (modqRedSi256 0xFFFFFFFFFFFFFFFF#64 40#64 0xFFFFFFFFFF#64 123456789#64).toNat
+    = Ntt120.modqRed (2 ^ 64 - 1) 40 0xFFFFFFFFFF 123456789 := by decide
+theorem ntt120_avx_modq_red_differs_outside :
+    (modqRedSi256 (1#64 <<< 40) 4#64 15#64 3#64).toNat ≠ Ntt120.modqRed (2 ^ 40) 4 15 3 := modqRed_differs_outside
+
+/-- the four butterfly lanes (`ntt_iter[_red]`, `intt_iter[_red]`, `ntt_iter_first[_red]`) against C07's `bfly`, `fwdTail`,
+`invTail` steps; `RedRange` / `SpmRange` are the operand ranges of the two `_mm256_mul_epu32` uses -/
+theorem ntt120_avx_butterfly_lanes_eq_ref (r : RedC) (m : StepC) (bs : Nat) (a b po : W) (ha : RedRange r m a) (hb : RedRange r m b) :
+    ((bfly0 r m a b).1.toNat, (bfly0 r m a b).2.toNat) = Ntt120.bfly (redOf r) (stepOf m bs) a.toNat b.toNat ∧
+    (SpmRange m (Ntt120.bfly (redOf r) (stepOf m bs) a.toNat b.toNat).2 →
+      ((fwdBflyI r m a b po).1.toNat, (fwdBflyI r m a b po).2.toNat) =
+        ((Ntt120.bfly (redOf r) (stepOf m bs) a.toNat b.toNat).1,
+         Ntt120.splitPrecompmul (Ntt120.bfly (redOf r) (stepOf m bs) a.toNat b.toNat).2 po.toNat m.halfBs.toNat m.mask.toNat)) ∧
+    (SpmRange m (Ntt120.redIf (redOf r) (stepOf m bs) b.toNat) →
+      ((invBflyI r m a b po).1.toNat, (invBflyI r m a b po).2.toNat) =
+        (let a' := Ntt120.redIf (redOf r) (stepOf m bs) a.toNat
+         let bo := Ntt120.splitPrecompmul (Ntt120.redIf (redOf r) (stepOf m bs) b.toNat) po.toNat m.halfBs.toNat m.mask.toNat
+         (Ntt120.wu64 (a' + bo), Ntt120.subU64 (Ntt120.wu64 (a' + m.q2bs.toNat)) bo))) ∧
+    (SpmRange m (Ntt120.redIf (redOf r) (stepOf m bs) a.toNat) →
+      (iterFirst r m a po).toNat
+        = Ntt120.splitPrecompmul (Ntt120.redIf (redOf r) (stepOf m bs) a.toNat) po.toNat m.halfBs.toNat m.mask.toNat) :=
+  ⟨bfly0_eq r m bs a b ha hb, fun hd => fwdBflyI_eq r m bs a b po ha hb hd, fun hd => invBflyI_eq r m bs a b po ha hb hd,
+   fun hd => iterFirst_eq r m bs a po ha hd⟩
+
+/-- the ranges hold on the real tables: C07's `ReducOK` gives `RedRange` for every 64-bit word, `SpmOK` gives `SpmRange` -/
+theorem ntt120_avx_butterfly_ranges (q : Nat) (r : RedC) (m : StepC) (bs D v : Nat) (x : W) :
+    (Ntt120.ReducOK q (redOf r) → RedRange r m x) ∧ (Ntt120.SpmOK q (stepOf m bs) D → v ≤ D → SpmRange m v) :=
+  ⟨fun ok => redRange_of_ok q r m x ok, fun ok hv => spmRange_of_ok q m bs D v ok hv⟩
+
+/-! ### `prim.rs`: lazy q120b add / sub / negate (seven kernels, one lane function each) -/
+
+/-- for EVERY 64-bit lane the intrinsic sequence (`xor msb`, signed `cmpgt`, `andnot`, `sub`) is C07's arithmetic twin … -/
+theorem ntt120_avx_lazy_lanes_all_inputs (q : Nat) (qs a b : W) (hq : qs.toNat = Ntt120.qShifted q) :
+    (nttAdd qs a b).toNat = Ntt120.addBbbAvxK q a.toNat b.toNat ∧ (nttSub qs a b).toNat = Ntt120.subBbbAvxK q a.toNat b.toNat ∧
+    (nttNegate qs a).toNat = Ntt120.negBAvxK q a.toNat :=
+  ⟨nttAdd_toNat q qs a b hq, nttSub_toNat q qs a b hq, nttNegate_toNat q qs a hq⟩
+/-- … and on the documented operand range `x < 2·Q_SHIFTED` it is the reference kernel (`% Q_SHIFTED`) -/
+theorem ntt120_avx_lazy_lanes_eq_ref (q : Nat) (qs a b : W) (hq : qs.toNat = Ntt120.qShifted q) (hq0 : 0 < q) (hq30 : q < 2 ^ 30)
+    (ha : a.toNat < 2 * (q * 2 ^ 33)) (hb : b.toNat < 2 * (q * 2 ^ 33)) :
+    (nttAdd qs a b).toNat = Ntt120.addBbbK q a.toNat b.toNat ∧ (nttSub qs a b).toNat = Ntt120.subBbbK q a.toNat b.toNat ∧
+    (nttNegate qs a).toNat = Ntt120.negBK q a.toNat :=
+  ⟨nttAdd_eq_ref q qs a b hq hq0 hq30 ha hb, nttSub_eq_ref q qs a b hq hq0 hq30 ha hb, nttNegate_eq_ref q qs a hq hq0 hq30 ha⟩
+example : (nttAdd (BitVec.ofNat 64 (Ntt120.qShifted 1073479681)) (BitVec.ofNat 64 (2 ^ 64 - 7)) 5#64).toNat
+    = Ntt120.addBbbAvxK 1073479681 (2 ^ 64 - 7) 5 := by decide
+theorem ntt120_avx_lazy_lane_differs_outside :
+    (nttAdd (BitVec.ofNat 64 (Ntt120.qShifted 1073479681)) (BitVec.ofNat 64 (2 ^ 64 - 1)) 0#64).toNat
+      ≠ Ntt120.addBbbK 1073479681 (2 ^ 64 - 1) 0 := nttAdd_differs_outside
+
+/-! ### `arithmetic_avx.rs`: Barrett lanes, `c_from_b`, `b_from_znx64`, pack kernels -/
+
+/-- the BitVec lanes are, for EVERY input, the `u64`-as-`Nat` lanes of `Model/AvxQ120.lean` proved in the previous round -/
+theorem ntt120_avx_barrett_lanes_bv (x q mu pow32 oq : W) :
+    (condSub x q).toNat = Avx.Q120.condSub x.toNat q.toNat ∧ (barrett x q mu).toNat = Avx.Q120.barrett x.toNat q.toNat mu.toNat ∧
+    (reduceBToCanonical x q mu pow32).toNat = Avx.Q120.reduceBToCanonical x.toNat q.toNat mu.toNat pow32.toNat ∧
+    (bFromZnx64 x oq).toNat = Avx.Q120.bFromZnx64Lane x.toNat oq.toNat :=
+  ⟨condSub_toNat x q, barrett_toNat x q mu, reduceB_toNat x q mu pow32, bFromZnx64_toNat x oq⟩
+
+/-- the four Primes30 constant vectors satisfy `ModC` -/
+theorem primes30_modC (k : Nat) (hk : k < 4) :
+    ModC (BitVec.ofNat 64 (Avx.Q120.Q.getD k 0)) (BitVec.ofNat 64 (Avx.Q120.MU.getD k 0)) (BitVec.ofNat 64 (Avx.Q120.POW32.getD k 0)) := by
+  have h : ∀ k, k < 4 → (2 ^ 29 < (BitVec.ofNat 64 (Avx.Q120.Q.getD k 0)).toNat ∧ (BitVec.ofNat 64 (Avx.Q120.Q.getD k 0)).toNat < 2 ^ 30 ∧
+      (BitVec.ofNat 64 (Avx.Q120.MU.getD k 0)).toNat = 2 ^ 61 / (BitVec.ofNat 64 (Avx.Q120.Q.getD k 0)).toNat ∧
+      (BitVec.ofNat 64 (Avx.Q120.POW32.getD k 0)).toNat = 2 ^ 32 % (BitVec.ofNat 64 (Avx.Q120.Q.getD k 0)).toNat) := by decide
+  exact ⟨(h k hk).1, (h k hk).2.1, (h k hk).2.2.1, (h k hk).2.2.2⟩
+
+theorem ntt120_avx_barrett_reduce_eq_mod (tmp q mu pow32 : W) (c : ModC q mu pow32) (ht : tmp.toNat < 2 ^ 61) :
+    (barrett tmp q mu).toNat = tmp.toNat % q.toNat := barrett_eq_mod tmp q mu pow32 c ht
+theorem ntt120_avx_reduce_b_to_canonical_eq_mod (x q mu pow32 : W) (c : ModC q mu pow32) (hx : x.toNat < q.toNat * 2 ^ 33) :
+    (reduceBToCanonical x q mu pow32).toNat = x.toNat % q.toNat := reduceB_eq_mod x q mu pow32 c hx
+/-- `c_from_b_avx2`: the stored word, read as the two `u32` of the q120c layout, is `c_from_b_ref`'s pair (`cFromBK`) -/
+theorem ntt120_avx_c_from_b_eq_ref (x q mu pow32 : W) (c : ModC q mu pow32) (hx : x.toNat < q.toNat * 2 ^ 33) :
+    [(cFromB x q mu pow32).toNat % 2 ^ 32, (cFromB x q mu pow32).toNat / 2 ^ 32] = Ntt120.cFromBK q.toNat x.toNat :=
+  cFromB_eq_ref x q mu pow32 c hx
+example : [(cFromB (BitVec.ofNat 64 (1073479681 * 2 ^ 33 - 1)) 1073479681#64 (BitVec.ofNat 64 (2 ^ 61 / 1073479681)) (BitVec.ofNat 64 (2 ^ 32 % 1073479681))).toNat % 2 ^ 32,
+    (cFromB (BitVec.ofNat 64 (1073479681 * 2 ^ 33 - 1)) 1073479681#64 (BitVec.ofNat 64 (2 ^ 61 / 1073479681)) (BitVec.ofNat 64 (2 ^ 32 % 1073479681))).toNat / 2 ^ 32]
+    = Ntt120.cFromBK 1073479681 (1073479681 * 2 ^ 33 - 1) := by decide
+/-- `b_from_znx64[_masked]_avx2` = `b_from_znx64_ref` for EVERY `i64` bit pattern -/
+theorem ntt120_avx_b_from_znx64_eq_ref (xv oqv : W) (q : Nat) (ho : oqv.toNat = Ntt120.oq q) :
+    (bFromZnx64 xv oqv).toNat = Ntt120.bFromU64K q xv.toNat := bFromZnx64_eq_ref xv oqv q ho
+example : (bFromZnx64 0x8000000000000000#64 (BitVec.ofNat 64 (Ntt120.oq 1073479681))).toNat = Ntt120.bFromU64K 1073479681 (2 ^ 63) := by decide
+
+theorem ntt120_avx_pack_left_eq_ref (x q mu pow32 : W) (c : ModC q mu pow32) (hx : x.toNat < q.toNat * 2 ^ 33) :
+    [(reduceBToCanonical x q mu pow32).toNat % 2 ^ 32, (reduceBToCanonical x q mu pow32).toNat / 2 ^ 32] = [x.toNat % q.toNat, 0] :=
+  packLeft_eq_ref x q mu pow32 c hx
+theorem ntt120_avx_pairwise_pack_left_eq_ref (a b q mu pow32 : W) (c : ModC q mu pow32)
+    (ha : a.toNat < q.toNat * 2 ^ 33) (hb : b.toNat < q.toNat * 2 ^ 33) :
+    (pairwisePackLeft a b q mu pow32).toNat
+      = if q.toNat ≤ a.toNat % q.toNat + b.toNat % q.toNat then a.toNat % q.toNat + b.toNat % q.toNat - q.toNat
+        else a.toNat % q.toNat + b.toNat % q.toNat := pairwisePackLeft_eq_ref a b q mu pow32 c ha hb
+/-- `pairwise_pack_right_1blk_x2_avx2` (`_mm256_add_epi32`, 32-bit lanes) = the reference's `u32` addition; `pack_right_1blk_x2_avx2`
+is a copy (`loadu`/`storeu`, nothing to prove beyond the index map, which is the reference's) -/
+theorem ntt120_avx_pairwise_pack_right_eq_ref (a b : BitVec 32) :
+    (add_epi32 a b).toNat = (a.toNat + b.toNat) % 2 ^ 32 ∧
+    (a.toNat < 2 ^ 31 → b.toNat < 2 ^ 31 → (add_epi32 a b).toNat = a.toNat + b.toNat) :=
+  ⟨add_epi32_toNat a b, add_epi32_exact a b⟩
+
+/-! ### `mat_vec_avx.rs`: the BBC kernels (1 column, x2, 2 columns) and `vec_mat1col_product_bbb_avx2` -/
+
+theorem ntt120_avx_bbc_step_eq_ref (s : W × W) (xv yv : W) :
+    ((bbcStep s xv yv).1.toNat, (bbcStep s xv yv).2.toNat)
+      = Ntt120.accumMulBcK (s.1.toNat, s.2.toNat) (xv.toNat &&& Ntt120.m32) (xv.toNat >>> 32) (yv.toNat &&& Ntt120.m32) (yv.toNat >>> 32) :=
+  bbcStep_eq s xv yv
+theorem ntt120_avx_reduce_bbc_eq_ref (sLo sHi maskH h2 s2l s2h : W) (hh : h2.toNat ≤ 32) (hm : maskH.toNat = Ntt120.maskOf h2.toNat)
+    (hs : sHi.toNat < 2 ^ (32 + h2.toNat)) (h1 : s2l.toNat < 2 ^ 32) (h2' : s2h.toNat < 2 ^ 32) :
+    (reduceBbc sLo sHi maskH h2 s2l s2h).toNat = Ntt120.accumToQ120bK h2.toNat s2l.toNat s2h.toNat (sLo.toNat, sHi.toNat) :=
+  reduceBbc_eq sLo sHi maskH h2 s2l s2h hh hm hs h1 h2'
+theorem ntt120_avx_reduce_bbc_differs_outside :
+    (reduceBbc 0#64 (1#64 <<< 32) ((1#64 <<< 33) - 1#64) 33#64 1#64 1#64).toNat ≠ Ntt120.accumToQ120bK 33 1 1 (0, 2 ^ 32) :=
+  reduceBbc_differs_outside
+/-- whole kernel, one prime lane, `ell` rows of ARBITRARY 64-bit words -/
+theorem ntt120_avx_bbc_kernel_eq_ref (maskH h2 s2l s2h : W) (rows : List (W × W)) (hh : h2.toNat ≤ 32)
+    (hm : maskH.toNat = Ntt120.maskOf h2.toNat) (hell : rows.length * 2 ^ 33 < 2 ^ (32 + h2.toNat))
+    (h1 : s2l.toNat < 2 ^ 32) (h2' : s2h.toNat < 2 ^ 32) :
+    (bbcLane maskH h2 s2l s2h rows).toNat = Ntt120.bbcK h2.toNat s2l.toNat s2h.toNat (rows.map termOf) :=
+  bbcLane_eq_ref maskH h2 s2l s2h rows hh hm hell h1 h2'
+example : (bbcLane (BitVec.ofNat 64 (2 ^ 25 - 1)) 25#64 5#64 7#64 [(0xFFFFFFFFFFFFFFFF#64, 0xFFFFFFFFFFFFFFFF#64), (3#64, 4#64)]).toNat
+    = Ntt120.bbcK 25 5 7 ([(0xFFFFFFFFFFFFFFFF#64, 0xFFFFFFFFFFFFFFFF#64), (3#64, 4#64)].map termOf) := by decide
+
+theorem ntt120_avx_bbb_step_eq_ref (s : W × W × W × W) (xv yv : W) :
+    ((bbbStep s xv yv).1.toNat, (bbbStep s xv yv).2.1.toNat, (bbbStep s xv yv).2.2.1.toNat, (bbbStep s xv yv).2.2.2.toNat)
+      = Ntt120.bbbAccK (s.1.toNat, s.2.1.toNat, s.2.2.1.toNat, s.2.2.2.toNat) xv.toNat yv.toNat := bbbStep_eq s xv yv
+theorem ntt120_avx_bbb_kernel_eq_ref (maskH h2 c1 c2 c3 c4 c5 c6 c7 : W) (rows : List (W × W)) (hh : h2.toNat ≤ 32)
+    (hm : maskH.toNat = Ntt120.maskOf h2.toNat) (hell : rows.length * (3 * 2 ^ 32) < 2 ^ (32 + h2.toNat))
+    (hc : ∀ x ∈ [c1, c2, c3, c4, c5, c6, c7], x.toNat < 2 ^ 32) :
+    (bbbLane maskH h2 c1 c2 c3 c4 c5 c6 c7 rows).toNat
+      = Ntt120.bbbK h2.toNat c1.toNat c2.toNat c3.toNat c4.toNat c5.toNat c6.toNat c7.toNat (rows.map (fun p => (p.1.toNat, p.2.toNat))) :=
+  bbbLane_eq_ref maskH h2 c1 c2 c3 c4 c5 c6 c7 rows hh hm hell hc
+example : (bbbLane (BitVec.ofNat 64 (2 ^ 24 - 1)) 24#64 1#64 2#64 3#64 4#64 5#64 6#64 7#64 [(0xFFFFFFFFFFFFFFFF#64, 0xFFFFFFFFFFFFFFFE#64)]).toNat
+    = Ntt120.bbbK 24 1 2 3 4 5 6 7 [(2 ^ 64 - 1, 2 ^ 64 - 2)] := by decide
+
+/-! ### `b_to_znx128_avx2`: the fused reduce-and-CRT lane and the limb accumulation -/
+
+/-- the scalar Barrett of the reference's consume path (`barrett_u61`) is `% q` below `2^61` (not proved in C07) -/
+theorem barrett_u61_eq_mod (x q mu : Nat) (hq1 : 2 ^ 29 < q) (hq2 : q < 2 ^ 30) (hmu : mu = 2 ^ 61 / q) (hx : x < 2 ^ 61) :
+    Ntt120.barrettU61 x q mu = x % q := barrettU61_eq x q mu hq1 hq2 hmu hx
+theorem ntt120_avx_crt_lane_eq_ref (x q mu p32 p16 crt : W) (c : CrtC q mu p32 p16 crt) (hx : x.toNat < q.toNat * 2 ^ 33) :
+    (reduceBAndApplyCrt x q mu p32 p16 crt).toNat
+      = Ntt120.reduceQ120bCrt x.toNat q.toNat mu.toNat p32.toNat p16.toNat crt.toNat := reduceBAndApplyCrt_eq x q mu p32 p16 crt c hx
+/-- the value is the CRT digit `(x mod q)·crt mod q` that `b_to_znx128_ref` computes with `%` -/
+theorem ntt120_avx_crt_lane_value (x q mu p32 p16 crt : W) (c : CrtC q mu p32 p16 crt) (hx : x.toNat < q.toNat * 2 ^ 33)
+    (e32 : p32.toNat ≡ 2 ^ 32 * crt.toNat [MOD q.toNat]) (e16 : p16.toNat ≡ 2 ^ 16 * crt.toNat [MOD q.toNat]) :
+    (reduceBAndApplyCrt x q mu p32 p16 crt).toNat = (x.toNat % q.toNat * crt.toNat) % q.toNat :=
+  reduceBAndApplyCrt_value x q mu p32 p16 crt c hx e32 e16
+/-- the Primes30 constants (`Q_VEC`, `BARRETT_MU`, `POW32_CRT`, `POW16_CRT`, `CRT_VEC` — as C07's `compactCst` computes them) are in
+range and congruent to what their names say -/
+theorem ntt120_avx_primes30_crt_constants (k : Nat) (hk : k < 4) :
+    CrtC (BitVec.ofNat 64 (Q30 k)) (BitVec.ofNat 64 (Ntt120.compactCst (Q30 k) (CRT30 k)).1) (BitVec.ofNat 64 (Ntt120.compactCst (Q30 k) (CRT30 k)).2.1)
+      (BitVec.ofNat 64 (Ntt120.compactCst (Q30 k) (CRT30 k)).2.2) (BitVec.ofNat 64 (CRT30 k)) ∧
+    (BitVec.ofNat 64 (Ntt120.compactCst (Q30 k) (CRT30 k)).2.1).toNat ≡ 2 ^ 32 * (BitVec.ofNat 64 (CRT30 k)).toNat [MOD (BitVec.ofNat 64 (Q30 k)).toNat] ∧
+    (BitVec.ofNat 64 (Ntt120.compactCst (Q30 k) (CRT30 k)).2.2).toNat ≡ 2 ^ 16 * (BitVec.ofNat 64 (CRT30 k)).toNat [MOD (BitVec.ofNat 64 (Q30 k)).toNat] :=
+  ⟨(primes30_crtC k hk).1, (primes30_crtC k hk).2.1, (primes30_crtC k hk).2.2.1⟩
+/-- `crt_accumulate_avx2` is the exact `Σ_k t_k·(Q/q_k)` from the three 32-bit limbs: no lane sum, no `u128` addition wraps -/
+theorem ntt120_avx_crt_accumulate_exact (t hi mid lo : V4) (r : AccRange t hi mid lo) :
+    (crtAccumulate t hi mid lo).toNat
+      = t.l0.toNat * (hi.l0.toNat * 2 ^ 64 + mid.l0.toNat * 2 ^ 32 + lo.l0.toNat)
+      + t.l1.toNat * (hi.l1.toNat * 2 ^ 64 + mid.l1.toNat * 2 ^ 32 + lo.l1.toNat)
+      + t.l2.toNat * (hi.l2.toNat * 2 ^ 64 + mid.l2.toNat * 2 ^ 32 + lo.l2.toNat)
+      + t.l3.toNat * (hi.l3.toNat * 2 ^ 64 + mid.l3.toNat * 2 ^ 32 + lo.l3.toNat) := crtAccumulate_eq t hi mid lo r
+
+/-- the table reduction of the scalar tail is exact and never indexes past `TOTAL_Q_MULT[3]` -/
+theorem ntt120_avx_crt_tail_exact (Q S : Nat) (hQ1 : 4 * (2 ^ 120 - Q) ≤ Q) (hQ2 : Q < 2 ^ 120) (hS : S < 4 * Q) (v : BitVec 128)
+    (hv : v.toNat = S) : crtTail Q v = centre Q (S % Q) ∧ (v >>> 120).toNat ≤ 3 := crtTail_eq Q S hQ1 hQ2 hS v hv
+/-- **whole `b_to_znx128_avx2` coefficient = `b_to_znx128_ref`** (Primes30, the set the AVX2 back end is fixed to), for every q120b
+word in the documented range -/
+theorem ntt120_avx_b_to_znx128_eq_ref (x : V4) (h0 : x.l0.toNat < Q30 0 * 2 ^ 33) (h1 : x.l1.toNat < Q30 1 * 2 ^ 33)
+    (h2 : x.l2.toNat < Q30 2 * 2 ^ 33) (h3 : x.l3.toNat < Q30 3 * 2 ^ 33) :
+    bToZnx128AvxCoef x qV muV p32V p16V crtV hiV midV loV (Ntt120.bigQ Ntt120.primes30)
+      = Ntt120.bToZnx128Core Ntt120.primes30 x.l0.toNat x.l1.toNat x.l2.toNat x.l3.toNat := bToZnx128Avx_eq_ref x h0 h1 h2 h3
+example : bToZnx128AvxCoef ⟨BitVec.ofNat 64 (Q30 0 * 2 ^ 33 - 1), 5#64, BitVec.ofNat 64 (Q30 2 * 2 ^ 33 - 1), 0#64⟩ qV muV p32V p16V crtV hiV midV loV
+      (Ntt120.bigQ Ntt120.primes30)
+    = Ntt120.bToZnx128Core Ntt120.primes30 (Q30 0 * 2 ^ 33 - 1) 5 (Q30 2 * 2 ^ 33 - 1) 0 := by decide +kernel
+
+/-! ### loops: four prime lanes per word, whole arrays, whole transforms -/
+
+/-- the partition lemma: the `__m256i` loop over a q120 array of `4·n` words applies lane function `k = i mod 4` to word `i`;
+with a lane theorem `φ (f k x) = g k x` on the operands allowed at lane `k` the whole array equals the reference's element-wise loop -/
+theorem ntt120_avx_loop4_partition {α β γ : Type} (f : Nat → α → β) (g : Nat → α → γ) (φ : β → γ) (P : Nat → α → Prop)
+    (h : ∀ k x, k < 4 → P k x → φ (f k x) = g k x) (n : Nat) (l : List α) (hl : l.length = 4 * n)
+    (hP : ∀ i (hi : i < l.length), P (i % 4) l[i]) :
+    loop4 f l = l.mapIdx (fun i x => f (i % 4) x) ∧ (loop4 f l).map φ = l.mapIdx (fun i x => g (i % 4) x) :=
+  ⟨loop4_eq_mapIdx f n l hl, loop4_lift f g φ P h n l hl hP⟩
+
+/-- instance: the whole `c_from_b_avx2` array (Primes30), every q120b word in range -/
+theorem ntt120_avx_c_from_b_array (n : Nat) (l : List W) (hl : l.length = 4 * n)
+    (hP : ∀ i (hi : i < l.length), l[i].toNat < Avx.Q120.Q.getD (i % 4) 0 * 2 ^ 33) :
+    (loop4 (fun k x => cFromB x (BitVec.ofNat 64 (Avx.Q120.Q.getD k 0)) (BitVec.ofNat 64 (Avx.Q120.MU.getD k 0)) (BitVec.ofNat 64 (Avx.Q120.POW32.getD k 0))) l).map
+        (fun w => [w.toNat % 2 ^ 32, w.toNat / 2 ^ 32])
+      = l.mapIdx (fun i x => Ntt120.cFromBK (Avx.Q120.Q.getD (i % 4) 0) x.toNat) := by
+  refine loop4_lift
+    (fun k x => cFromB x (BitVec.ofNat 64 (Avx.Q120.Q.getD k 0)) (BitVec.ofNat 64 (Avx.Q120.MU.getD k 0)) (BitVec.ofNat 64 (Avx.Q120.POW32.getD k 0)))
+    (fun k x => Ntt120.cFromBK (Avx.Q120.Q.getD k 0) x.toNat) (fun w => [w.toNat % 2 ^ 32, w.toNat / 2 ^ 32])
+    (fun k x => x.toNat < Avx.Q120.Q.getD k 0 * 2 ^ 33) ?_ n l hl hP
+  intro k x hk hx
+  have c := primes30_modC k hk
+  have hq : (BitVec.ofNat 64 (Avx.Q120.Q.getD k 0)).toNat = Avx.Q120.Q.getD k 0 := by
+    have : ∀ k, k < 4 → (BitVec.ofNat 64 (Avx.Q120.Q.getD k 0)).toNat = Avx.Q120.Q.getD k 0 := by decide
+    exact this k hk
+  have := cFromB_eq_ref x _ _ _ c (by rw [hq]; exact hx)
+  rw [hq] at this
+  exact this
+
+/-- `ntt_avx2`: the by-level / by-block order computes the reference's depth-first network (pure schedule statement) -/
+theorem ntt120_avx_ntt_schedule (r : RedC) (l0 : LevelC) (rest : List LevelC) (k : Nat) (v : List W) :
+    nttAvx r (l0 :: rest) k v = nttLevelsBV r rest (List.zipWith (fun x po => splitPrecompmulSi256 x po l0.m.halfBs l0.m.mask) v l0.tw) :=
+  nttAvx_schedule r l0 rest k v
+theorem ntt120_avx_intt_schedule (r : RedC) (last : LevelC) (revL : List LevelC) (j : Nat) (cs : List (List W)) (hj : j ≤ revL.length)
+    (hc : ∀ c ∈ cs, c.length = 2 ^ j) (hlen : cs.flatten.length = 2 ^ revL.length) :
+    inttAvx r (revL.reverse ++ [last]) j cs
+      = List.zipWith (fun x po => iterFirst r last.m x po) (inttLevelsBV r revL cs.flatten) last.tw :=
+  inttAvx_schedule r last revL j cs hj hc hlen
+
+/-- **whole forward transform**: one prime lane of `ntt_avx2` = the lane of `ntt_ref`, bit for bit, for every table satisfying
+C07's `FwdTableOK`, every split and EVERY vector of 64-bit words -/
+theorem ntt120_avx_ntt_eq_ref {q : Nat} (r : RedC) (lcs : List LevelC) (k : Nat) (t : Ntt120.TableK) (ω : ZMod q)
+    (ok : Ntt120.FwdTableOK q t ω) (ht : t.levels = lcs.map LevelC.toLevel) (hrd : t.reduc = redOf r) (v : List W)
+    (hv : v.length = 2 ^ (lcs.length - 1)) : tn (nttAvx r lcs k v) = Ntt120.nttK t (tn v) :=
+  nttAvx_eq_nttK r lcs k t ω ok ht hrd v hv
+/-- **whole inverse transform** -/
+theorem ntt120_avx_intt_eq_ref {q : Nat} (r : RedC) (last : LevelC) (revL : List LevelC) (j : Nat) (t : Ntt120.TableK) (ω' ninv : ZMod q)
+    (ok : Ntt120.InvTableOK q t ω' ninv) (ht : t.levels = (revL.reverse ++ [last]).map LevelC.toLevel) (hrd : t.reduc = redOf r)
+    (cs : List (List W)) (hj : j ≤ revL.length) (hc : ∀ c ∈ cs, c.length = 2 ^ j) (hlen : cs.flatten.length = 2 ^ revL.length) :
+    tn (inttAvx r (revL.reverse ++ [last]) j cs) = Ntt120.inttK t (tn cs.flatten) :=
+  inttAvx_eq_inttK r last revL j t ω' ninv ok ht hrd cs hj hc hlen
+
+/-- on the real Primes30 tables (`NttTable::<Primes30>::new(2^j)`, `NttTableInv::…`, `1 ≤ j ≤ 16`, the four lanes): the only
+remaining hypothesis is that the table entries are `u64` (`fitsTable`, checked on every table the tie uses) -/
+theorem ntt120_avx_ntt_primes30 (k j : Nat) (hk : k < 4) (hj1 : 1 ≤ j) (hj : j ≤ 16) (t : Ntt120.TableK)
+    (ht : Ntt120.nttTableK Ntt120.primes30 k (2 ^ j) = .ok t) (hf : fitsTable t = true) (split : Nat) (v : List W) (hv : v.length = 2 ^ j) :
+    tn (nttAvx (redCOf t.reduc) (t.levels.map levelCOf) split v) = Ntt120.nttK t (tn v) :=
+  nttAvx_real _ k j (Ntt120.primes30_nttGood k hk).1 hj1 hj t ht hf split v hv
+theorem ntt120_avx_intt_primes30 (k j : Nat) (hk : k < 4) (hj1 : 1 ≤ j) (hj : j ≤ 16) (t : Ntt120.TableK)
+    (ht : Ntt120.inttTableK Ntt120.primes30 k (2 ^ j) = .ok t) (hf : fitsTable t = true) (jj : Nat) (hjj : jj ≤ j) (cs : List (List W))
+    (hc : ∀ c ∈ cs, c.length = 2 ^ jj) (hlen : cs.flatten.length = 2 ^ j) :
+    tn (inttAvx (redCOf t.reduc) (t.levels.map levelCOf) jj cs) = Ntt120.inttK t (tn cs.flatten) :=
+  inttAvx_real _ k j (Ntt120.primes30_nttGood k hk).1 (Ntt120.primes30_nttGood k hk).2 hj1 hj t ht hf jj hjj cs hc hlen
+/-- non-vacuity: the real table of size 8 exists, fits, and the two sides agree on a worst-case vector -/
+example : (match Ntt120.nttTableK Ntt120.primes30 0 8 with
+    | .ok t => fitsTable t && decide (tn (nttAvx (redCOf t.reduc) (t.levels.map levelCOf) 1 (List.replicate 8 0xFFFFFFFFFFFFFFFF#64))
+        = Ntt120.nttK t (List.replicate 8 (2 ^ 64 - 1)))
+    | _ => false) = true := by decide +kernel
+example : (match Ntt120.inttTableK Ntt120.primes30 3 8 with
+    | .ok t => fitsTable t && decide (tn (inttAvx (redCOf t.reduc) (t.levels.map levelCOf) 2 (List.replicate 2 (List.replicate 4 0xFFFFFFFFFFFFFFFF#64)))
+        = Ntt120.inttK t (List.replicate 8 (2 ^ 64 - 1)))
+    | _ => false) = true := by decide +kernel
+
+end NttAvx
 
 end C10
